@@ -73,16 +73,7 @@ func createAudioSeg(vodFS fs.FS, a *asset, rec audioRecipe) (*mp4.MediaSegment, 
 	timeCollected := uint64(0)
 	var sampleItvls []sampleItvl
 	lastIdx := len(rep.Segments) - 1
-	// Find a segment start nr that is early enough for audioInStart
-	startNr := int(rec.audioInStart) / rep.duration()
-	for {
-		if rep.Segments[startNr].StartTime > rec.audioInStart {
-			startNr--
-			continue
-		}
-		break
-	}
-	for i := startNr; i <= lastIdx; i++ {
+	for i := 0; i <= lastIdx; i++ {
 		s := rep.Segments[i]
 		if s.EndTime <= rec.audioInStart {
 			continue
@@ -115,6 +106,13 @@ func createAudioSeg(vodFS fs.FS, a *asset, rec audioRecipe) (*mp4.MediaSegment, 
 		sampleItvls[len(sampleItvls)-1].endIdx = uint32((rec.audioInEnd - s.StartTime) / sampleDur)
 		timeCollected += sampleItvls[len(sampleItvls)-1].dur(sampleDur)
 		break
+	}
+	if len(sampleItvls) == 0 {
+		// The audio ends before audioInStart, so there is nothing but repeated samples
+		fillTime := rec.audioInEnd - rec.audioInStart
+		timeCollected += fillTime
+		nrInLast := uint32(rep.Segments[lastIdx].dur() / sampleDur)
+		sampleItvls = append(sampleItvls, sampleItvl{lastIdx, nrInLast, nrInLast, uint32(fillTime / sampleDur)})
 	}
 	audioLeft := (rec.endTime - rec.startTime - timeCollected)
 	if audioLeft != rec.audioInEndAfterWrap {
